@@ -74,9 +74,9 @@ def radixDec (k : Nat) (alpha : List Nat) (cs : List Nat) : Option (List Nat) :=
   | none => none
   | some ds => some (radixBytes k ds 0 0 [])
 
-def base32 : Codec := ⟨radixEnc 5 SA.Gen.c09cb32, radixDec 5 SA.Gen.c09cb32⟩
-def base64 : Codec := ⟨radixEnc 6 SA.Gen.c09cb64, radixDec 6 SA.Gen.c09cb64⟩
-def base64u : Codec := ⟨radixEnc 6 SA.Gen.c09cb64u, radixDec 6 SA.Gen.c09cb64u⟩
+def base32 : Codec := ⟨radixEnc 5 SA.Gen.C09.c09cb32, radixDec 5 SA.Gen.C09.c09cb32⟩
+def base64 : Codec := ⟨radixEnc 6 SA.Gen.C09.c09cb64, radixDec 6 SA.Gen.C09.c09cb64⟩
+def base64u : Codec := ⟨radixEnc 6 SA.Gen.C09.c09cb64u, radixDec 6 SA.Gen.C09.c09cb64u⟩
 
 /-! ### table codec from the op line -/
 
@@ -113,7 +113,7 @@ def tableCodec (o : Oracle) : Codec :=
 /-- codec of a one-letter code (as `FromCode`: case-insensitive); none = not in the registry -/
 def upper (b : Nat) : Nat := if 97 ≤ b ∧ b ≤ 122 then b - 32 else b
 
-def registryCodes : List Nat := SA.Gen.codecRatios.map (·.1)
+def registryCodes : List Nat := SA.Gen.C09.codecRatios.map (·.1)
 
 def ofLetter (letter : Nat) (o : Oracle) : Option Codec :=
   let l := upper letter
